@@ -91,6 +91,10 @@ class Prop(PropBase):
         'translated (hand model + correspondence run only)',
         'a pipeline loader that returns a malformed (non-mapping) payload is modelled as a raising creator: '
         'the creator of the pipeline cache is Loader._load_pipeline, which refuses such a payload',
+        'get_module layer: importlib (sys.modules + its per-module lock) is treated as one more instance of '
+        'the same protocol (key = module name, creator = executing the module body); the replay holds a real '
+        'module half-imported and relies on introspecting importlib._bootstrap._blocking_on (CPython 3.12) to '
+        'know that the other threads are blocked, with a bounded wait as fall-back',
         'creators are modelled as: succeed with a fresh object or raise; a creator that re-enters the '
         'same cache (deadlock on the non-reentrant lock) is outside the model',
         'BackoffCache starts with (and clears to) the built-in back-offs: only custom names are replayed '
@@ -133,6 +137,8 @@ class Prop(PropBase):
                 cases.append(self.gen_sched_case(rng))
             elif r < 0.67:
                 cases.append(self.gen_syspath_case(rng))
+            elif r < 0.73:
+                cases.append(self.gen_import_case(rng))
             else:
                 cases.append(self.gen_seq_case(rng))
         return cases
@@ -167,6 +173,18 @@ class Prop(PropBase):
         complete = rng.random() < 0.85
         return {'kind': 'sched', 'target': target, 'nc': rng.random() < 0.15, 'progs': progs,
                 'sched': gen_sched(rng, n, total, complete), 'complete': complete}
+
+    IMPORT_VIAS = ['step', 'parser', 'loader', 'backoff', 'namespace', 'get_module']
+
+    def gen_import_case(self, rng):
+        n = rng.choice([2, 2, 3])
+        vias = [rng.choice(self.IMPORT_VIAS) for _ in range(n)]
+        # the model run: thread 0 up to inside the creator, the others try (blocked), 0 finishes, they load
+        sched = [0] * 4 + [t for t in range(1, n) for _ in range(2)] + [0] * 4 + \
+                [t for t in range(1, n) for _ in range(6)]
+        return {'kind': 'import', 'target': 'get_module', 'nc': rng.random() < 0.4, 'vias': vias,
+                'progs': [[['get', None, 'slowmod', True]] for _ in range(n)], 'sched': sched,
+                'complete': True}
 
     def gen_syspath_case(self, rng):
         names = rng.sample(['d1', 'd2', 'd+3', 'nope'], rng.choice([1, 2, 2, 3]))
@@ -217,6 +235,9 @@ class Prop(PropBase):
         if case['kind'] == 'syspath':
             import c13_syspath
             return c13_syspath.run_syspath(case)
+        if case['kind'] == 'import':
+            import c13_import
+            return c13_import.run_import(case)
         import c13_seq
         return c13_seq.run_sequential(case)
 
@@ -239,12 +260,17 @@ class Prop(PropBase):
             return f'(check_asp {pre} {progs} {sched} {evs} {app})'
         evs = pv.coq_list([coq_event(e) for e in obs['events'] if not e[0].startswith('_')])
         fn = 'check_full' if case['kind'] == 'sched' else 'check_ops'
+        if case['kind'] == 'import':
+            # the import system (sys.modules + per-module lock) is the cache; pypyr's no_cache is irrelevant to it
+            return f'({fn} {coq_args(dict(case, nc=False))} {evs})'
         return f'({fn} {coq_args(case)} {evs})'
 
     def coq_model_obs(self, case):
         if case['kind'] == 'syspath':
             pre, progs, sched = self.asp_parts(case)
             return f'(fun a => (rev (alog a), added a)) (arun {sched} (ainit {pre} {progs}))'
+        if case['kind'] == 'import':
+            return f'filter op_level (model_log {coq_args(dict(case, nc=False))})'
         if case['kind'] == 'sched':
             return f'model_log {coq_args(case)}'
         return f'filter op_level (model_log {coq_args(case)})'
@@ -253,6 +279,8 @@ class Prop(PropBase):
     def monitor(self, case, obs):
         if case['kind'] == 'syspath':
             return c13_monitor.monitor_syspath(case, obs)
+        if case['kind'] == 'import':
+            return c13_monitor.monitor_import(case, obs)
         return c13_monitor.monitor_events(case, obs)
 
     def nontrivial(self, case, obs):
@@ -262,6 +290,9 @@ class Prop(PropBase):
         tags = [f'kind:{case["kind"]}', f'target:{case["target"]}', f'nc:{case["nc"]}',
                 f'threads:{len(case["progs"])}']
         evs = obs['events']
+        if case['kind'] == 'import':
+            return tags + ['via:' + '+'.join(sorted(set(case['vias'])))] if len(set(case['vias'])) == 1 \
+                else tags + ['via:mixed'] + [f'via:{v}' for v in sorted(set(case['vias']))]
         if case['kind'] == 'syspath':
             return tags + ['complete' if case.get('complete') else 'cut-off',
                            'lock-contended' if any(e[0] == 'acq' for e in evs) and len(
